@@ -23,7 +23,7 @@ pub struct Base {
     pub toks: Vec<RTok>,
 }
 
-const EXTRA: &[&str] = &[";", "1.5", "7", "-1", "4294967296", "99999999999999999999", "0", "nm", "\"s\"", "\"\"", "\"unterminated", "-", ".", "1e9", "-inf", "#c"];
+const EXTRA: &[&str] = &[";", "1.5", "7", "-1", "4294967296", "99999999999999999999", "0", "nm", "\"s\"", "\"\"", "\"\u{e9}\"", "\"\u{e9}]\"", "\"\u{20ac}\"", "\"[\u{1f600}\"", "\"unterminated", "-", ".", "1e9", "-inf", "#c"];
 /// 2-, 3-, 4-byte characters, a combining mark, U+00A0 and U+2028
 const NONASCII: &[&str] = &["é", "€", "😀", "e\u{301}", "\u{a0}", "\u{2028}"];
 
